@@ -179,6 +179,24 @@ class Zoo:
         self.layer, self.trainer = None, None
         self.mods = {"reducers": h}
 
+    def build_neurons(self):
+        """bare neuron groups (no trainer, hence no lazily shaped recorder: a never-stepped target accepts every checkpoint);
+        one group per class, the first with voltage hyper-parameters written as whole Python ints"""
+        from checks.c03_neurons import CLS, shifted_hp
+        from inferno.neural import LIF
+
+        class Holder(inferno.Module):
+            pass
+
+        h = Holder()
+        h.lif_int = LIF((2,), DT, rest_v=-60, reset_v=-65, thresh_v=-58, refrac_t=2, time_constant=20, resistance=1, batch_size=1)
+        for cname in CLS:
+            setattr(h, cname.lower(), CLS[cname]((2,), DT, refrac_t=2.0, batch_size=1, **shifted_hp(cname)))
+        self.holder = h
+        self.n_in = 2
+        self.layer, self.trainer = None, None
+        self.mods = {"neurons": h}
+
     def build_classifier(self):
         self.clf = MaxRateClassifier((3,), 2, decay=0.1)
         self.n_in = 3
@@ -193,6 +211,13 @@ class Zoo:
             for r in self.holder.children():
                 r(x)
             return {"peek:" + n: r.peek().clone() for n, r in self.holder.named_children()}
+        if self.name == "neurons":
+            outs = {}
+            for n, m in self.holder.named_children():
+                x = torch.tensor([[float(b) for b in bits]]) * (30.0 if n == "lif_int" else 2.5)
+                outs[n] = m(x).clone()
+                outs["v:" + n] = m.voltage.clone()
+            return outs
         if self.name == "classifier":
             x = torch.tensor([[float(b) for b in bits], [float(not b) for b in bits]])
             labels = torch.tensor([t % 2, (t + 1) % 2])
@@ -224,6 +249,9 @@ class Zoo:
         if self.name == "reducers":
             for r in self.holder.children():
                 r.clear(keepshape=True)
+        elif self.name == "neurons":
+            for m in self.holder.children():
+                m.clear()
         elif self.name != "classifier":
             self.trainer.clear(keepshape=True)
             if getattr(self, "recurrent", False):
@@ -259,7 +287,7 @@ class Zoo:
 
 ZOO_EXTRA = ("dense_delta_qif_dastdpd", "direct_exp_glif2_mstdp", "dense_dexp_eif_dakernel")
 ZOO = ("dense_exp_lif_stdp", "dense_delta_lif_inthp_stdp", "direct_delta_alif_triplet", "lateral_dexp_adex_mstdpet", "conv_deltaplus_izh_kernel", "biclique_homeostasis",
-       "recurrent_dastdp", "reducers", "classifier")
+       "recurrent_dastdp", "reducers", "neurons", "classifier")
 
 
 def eq(a, b):
@@ -291,7 +319,9 @@ def shard(name, inplace, clear_at=None):
     spikes = sum(int(v.sum()) for o in ref_out for v in o.values() if v.dtype == torch.bool)
     tally.mark("activity", (name, inplace, spikes > 0))
     for k in range(0, T + 1):
-        targets = [("fresh", 0)] if k == 0 else [("warmed", 1), ("ran", 3), ("cleared", 2)]
+        # "unwarmed": a never-stepped target also for k >= 1. Its lazily shaped recorders do not exist yet, so a refused load is
+        # the property's proviso and not reported; an accepted load must give the identical future like any other target.
+        targets = [("fresh", 0)] if k == 0 else [("warmed", 1), ("ran", 3), ("cleared", 2), ("unwarmed", 0)]
         if clear_at is not None and k == clear_at and k >= 1:
             pass  # the checkpoint is taken right after step k-1; the clear belongs to step k and happens in the continuation
         for tkind, j in targets:
@@ -312,8 +342,13 @@ def shard(name, inplace, clear_at=None):
                     tgt.clear_all()
                 tgt.load(blob)
             except Exception as ex:
+                if tkind == "unwarmed":
+                    tally.add("unwarmed_load_refused")
+                    continue
                 tally.violation(f"exception:save-load:{name}:{tkind}:{type(ex).__name__}", case, f"{type(ex).__name__}: {str(ex)[:300]}", None, repr(ex)[:500])
                 continue
+            if tkind == "unwarmed":
+                tally.add("unwarmed_load_accepted")
             ok = True
             # state right after loading equals the state of the source at k
             if k >= 1 and not after_clear:
